@@ -1,0 +1,13 @@
+//go:build verif
+
+package route
+
+// VerifYield, when set, is called between the status load and the status swap of Engine.Shutdown
+// so that a scheduler can order two concurrent Shutdown calls.
+var VerifYield func(site string)
+
+func verifYield(site string) {
+	if f := VerifYield; f != nil {
+		f(site)
+	}
+}
